@@ -356,6 +356,18 @@ Do(kind, f) == /\ phase' = phase
                   act' = [name |-> "Read", kind |-> kind, frame |-> f, res |-> res.r, out |-> res.out, req |-> res.req,
                           dres |-> IF f.cmd \in {"addr", "offline"} THEN ReadMessageDesign(f).r ELSE res.r]
 
+\* C24, sequences: ReadMessage is a function of the frame -- a message that was returned is a value of its own,
+\* it does not change when further frames are read (from the same or another connection).  ReadPair reads
+\* frame f1, then f2, and only then re-serializes both: the outputs are those of the single reads.
+Filler == Rep(238, 400)                        \* an unknown-command frame long enough to overwrite any small read buffer
+Disturbers(cmd) == {<<"mystery", Filler>>, <<"ping", Seq1(1, 8)>>}
+                   \cup {<<"consensus", b2>> : b2 \in Bases("consensus")} \cup {<<"tx", <<TOK_TX>>>>, <<"getmembers", <<TOK_MEMREQ>>>>}
+                   \cup {<<cmd, b2>> : b2 \in Bases(cmd)}
+DoPair(f1, f2) == /\ phase' = phase
+                  /\ LET r1 == ReadMessage(f1) r2 == ReadMessage(f2) IN
+                     act' = [name |-> "ReadPair", kind |-> "pair", frame |-> f1, res |-> r1.r, out |-> r1.out, req |-> r1.req,
+                             dres |-> r1.r, frame2 |-> f2, res2 |-> r2.r, out2 |-> r2.out]
+
 Init == phase = "run" /\ act = [name |-> "Init"]
 Next == \/ \E cmd \in Cmds : \E b \in Bases(cmd) :
            \/ Do("base", Frame(cmd, b))
@@ -375,6 +387,8 @@ Next == \/ \E cmd \in Cmds : \E b \in Bases(cmd) :
            \/ Do("checksum", [Frame(cmd, b) EXCEPT !.cks = "flip"])
            \/ \E h \in {0, 3, 23} : Do("header", [Frame(cmd, b) EXCEPT !.hdr = h])
            \/ Do("magic", [Frame(cmd, b) EXCEPT !.magic = "bad", !.lenf = "huge", !.cks = "flip"])
+        \/ \E cmd \in Cmds : \E b \in Bases(cmd) : \E d \in Disturbers(cmd) :
+              Len(b) <= 400 /\ DoPair(Frame(cmd, b), Frame(d[1], d[2]))
         \/ \E cmd \in Cmds : \E b \in ExtraBases[cmd] : Do("random", Frame(cmd, b)) \/ Do("randomtrail", Frame(cmd, b \o <<0>>))
 Spec == Init /\ [][Next]_vars
 
@@ -417,5 +431,9 @@ ReproOK == [][act'.name = "Read" /\ act'.res = "ok" /\ act'.frame.lenf = "exact"
 \* harness checks that the real decoder does so without allocating for the announced number)
 WrapRejected == [][act'.name = "Read" /\ act'.kind = "wrap" /\ act'.frame.cmd \in {"addr", "inv", "headers", "members"}
                       => act'.res \in {"err", "panic"}]_vars
+\* the message returned for a frame is independent of what is read afterwards (and before)
+IndependentOK == [][act'.name = "ReadPair" =>
+                       /\ act'.res = ReadMessage(act'.frame).r /\ act'.out = ReadMessage(act'.frame).out
+                       /\ act'.res2 = ReadMessage(act'.frame2).r /\ act'.out2 = ReadMessage(act'.frame2).out]_vars
 State == [phase |-> phase]
 =============================================================================
